@@ -79,12 +79,41 @@ def post_release_bound_shortening(v) -> bool:
 
     live = v.get("_live") or {}
     value = live.get("value", live.get("spec"))
+    d = v["detail"]
+    if v["property"] == "C04" and value is not None and iv.readable(value) and not _f8_ranges(value) \
+            and "===" in str((v.get("case") or {}).get("tree", "")):
+        # === stratum: `===V & other` decides by `V in other`; the F8 range may sit in an *operand* whose membership
+        # answer for V was wrong.  Explained iff a leaf of the case holds such a range and the candidate lies in its
+        # dropped slice [X, X.postN) while packaging admits it and the library does not.
+        from dep_logic.specifiers import parse_version_specifier
+        from packaging.version import Version as _V
+
+        if not (d.get("expected") is True and d.get("got") is False):
+            return False
+        ver = _V(d["version"])
+
+        def leaves(t):
+            if t[0] in ("leaf", "fss"):
+                yield t[1]
+            for c in t[1:]:
+                if isinstance(c, list):
+                    yield from leaves(c)
+        for text in leaves(v["case"]["tree"]):
+            if "===" in text:
+                continue
+            try:
+                leaf = parse_version_specifier(text)
+            except Exception:  # noqa: BLE001
+                continue
+            for r in _f8_ranges(leaf):
+                if _release_only(r.max) <= ver < r.max:
+                    return True
+        return False
     if value is None or not iv.readable(value):
         return False
     bad = _f8_ranges(value)
     if not bad:
         return False
-    d = v["detail"]
     if v["property"] == "C04":
         # membership: structurally admitted, really rejected, and the candidate lies in the dropped slice
         ver = Version(d["version"])
@@ -433,4 +462,31 @@ def post_release_bound_in_marker(v) -> bool:
             continue
         if x.post is not None and x.dev is None and _release_only(x) <= val < x:
             return True
+    return False
+
+
+@predicate
+def packaging_accepts_what_version_rejects(v) -> bool:
+    """F25: packaging's specifier regex is matched case-insensitively in unicode mode, so an operand like
+    `1.0.poſt1` (LATIN SMALL LETTER LONG S) passes SpecifierSet() although packaging.version.Version
+    rejects it; dep-logic then leaks that InvalidVersion.  Explained iff the outcome is an InvalidVersion AND
+    packaging's own Version() rejects the operand of some clause of the text (the reference contradicts itself)."""
+    from packaging.specifiers import SpecifierSet
+    from packaging.version import InvalidVersion, Version
+
+    d = v["detail"]
+    blob = str(d.get("outcome", "")) + str(d.get("error", "")) + str(v.get("what", ""))
+    if "InvalidVersion" not in blob:
+        return False
+    text = (v.get("case") or {}).get("text") or d.get("text") or ""
+    try:
+        for part in text.split("||"):
+            for spec in SpecifierSet(part):
+                operand = spec.version[:-2] if spec.version.endswith(".*") else spec.version
+                try:
+                    Version(operand)
+                except InvalidVersion:
+                    return True
+    except Exception:  # noqa: BLE001
+        return False
     return False
